@@ -22,7 +22,7 @@ FLOW = {
     2: [{"shape": [12, 16], "x_range": 1.0}, {"shape": [16, 12], "x_range": 0.6}],
     3: [{"shape": [8, 10, 12], "x_range": 1.2}, {"shape": [10, 8, 12], "x_range": 1.0}],
 }
-PROG_N = {2: [1, 3, 6, 10], 3: [1, 3, 9, 12]}
+PROG_N = {2: [1, 3, 6, 10, 600], 3: [1, 3, 9, 12, 600]}
 BODY_KINDS = {
     2: [("prog", 8), ("cylinder", 2), ("rod_nodal", 1), ("rod_elem", 1), ("rod_edge", 1)],
     3: [("prog", 8), ("sphere", 2), ("plane", 1), ("rod_nodal", 1), ("rod_surface", 1)],
@@ -30,6 +30,7 @@ BODY_KINDS = {
 STIFFNESS = [-5.0e4, -1.0e3, 200.0, -1.0]
 DAMPING = [-20.0, -1.0, 0.0, 3.0]
 EVAL_KINDS = ["call", "call", "forces", "lag"]
+QUERY_OPS = ["deviation"]
 
 
 def _real_t(precision):
@@ -74,7 +75,7 @@ class C10(Check):
     }
     required_probes = [
         "step_with_nonzero_mismatch", "step_with_zero_mismatch", "repeated_eval_without_step", "two_bodies_spread_into_nonzero_field",
-        "overlapping_supports", "reset_eval_into_dirty_field", "dt_ratio_ge_100", "step_before_any_eval", "uniform_flow_eval", "generic_flow_eval", "prelude_world_with_other_dx", "non_contiguous_eulerian_fields",
+        "overlapping_supports", "reset_eval_into_dirty_field", "dt_ratio_ge_100", "step_before_any_eval", "uniform_flow_eval", "generic_flow_eval", "prelude_world_with_other_dx", "non_contiguous_eulerian_fields", "deviation_query", "many_markers",
     ]
     tiers = {
         "quick": {"runs": 480, "batch": 6, "timeout": 600},
@@ -131,12 +132,12 @@ class C10(Check):
             bodies.append(
                 {
                     "kind": kind,
-                    "n": rng.choice(PROG_N[dim]) if kind == "prog" else None,
+                    "n": (600 if rng.random() < 0.06 else rng.choice(PROG_N[dim][:-1])) if kind == "prog" else None,
                     "k": rng.choice(STIFFNESS),
                     "c": rng.choice(DAMPING),
                     "hfac": rng.choice([0.5, 1.0, 1.7, 0.9]),
                     "sub": prng.sub_seed(rng),
-                    "t0": rng.choice([0.0, 0.0, 1.25]),
+                    "t0": rng.choice([0.0, 0.0, 1.25, 3.0e6, 1.0e9]),
                     # reset mode is a per-interaction option: with several bodies a resetting one
                     # overwrites whatever the others spread before it
                     "reset": (rng.random() < 0.25) if nb > 1 else reset,
@@ -160,6 +161,8 @@ class C10(Check):
                 for bb in range(nb):
                     ops.append({"op": "call", "body": bb})
                 ops.append({"op": "consume"})
+                if rng.random() < 0.3:
+                    ops.append({"op": "deviation", "body": b})
                 if rng.random() < 0.5:
                     ops.append({"op": "flow", "sub": prng.sub_seed(rng)} if rng.random() < 0.6 else {"op": "flow", "uniform": [rng.uniform(-2, 2) for _ in range(dim)]})
                 if rng.random() < 0.5:
@@ -168,6 +171,8 @@ class C10(Check):
                     break
                 continue
             r = rng.random()
+            if rng.random() < 0.08:
+                ops.append({"op": "deviation", "body": b})  # public read-only diagnostic
             w_eval = 0.6 if style == "eval_heavy" else 0.35
             if r < w_eval:
                 ops.append({"op": rng.choice(EVAL_KINDS), "body": b})
@@ -397,6 +402,8 @@ class C10(Check):
         reset = bool(program["reset"]) and len(program["bodies"]) == 1
         bodies = [self._make_body(s, i, dim, real_t, dx, lengths, forcing, velocity, reset) for i, s in enumerate(program["bodies"])]
         reset = None  # per body from here on
+        if any(x["n"] >= 500 for x in bodies):
+            res.probe("many_markers")
         nb = len(bodies)
         uniform = [0.0] * dim  # current flow is uniform with this value, or None
         cell_vol = float(dx) ** dim
@@ -532,6 +539,15 @@ class C10(Check):
                 # a time step leaves V and F alone
                 if it.lag_grid_velocity_mismatch_field.tobytes() != before_pub[bi]["V"].tobytes():
                     res.violation("pi_law", dict(sig0, what="time_step_changed_mismatch", grid=b["kind"]), f"op {oi} time_step body {bi} changed the velocity mismatch field", oi)
+            elif kind == "deviation":
+                # public diagnostic: returns the L2 norm of the integral per marker and must not touch anything
+                val = float(b["inter"].get_grid_deviation_error_l2_norm())
+                b["twin"].get_grid_deviation_error_l2_norm()
+                want = float(np.linalg.norm(b["model"].X) / np.sqrt(b["n"]))
+                res.probe("deviation_query")
+                tolq = 64 * eps * (b["model"].steps + 1) * max(b["model"].x_scale, tiny) * np.sqrt(b["model"].X.size) + tiny
+                if not abs(val - want) <= tolq:
+                    res.violation("pi_law", dict(sig0, what="deviation_norm", grid=b["kind"]), f"op {oi} deviation query on body {bi}: returned {val!r}, integral of the model gives {want!r}", oi)
             elif kind == "move":
                 b["move"](op["sub"])
                 before_state = [snap_body_state(x) for x in bodies]
@@ -554,11 +570,11 @@ class C10(Check):
                 for k, v in x["state"].items():
                     if v.tobytes() != before_state[xi][k].tobytes():
                         res.violation("read_only", dict(sig0, what="body_state_modified", op=kind, grid=x["kind"]), f"op {oi} {kind} on body {bi}: body {xi} state array '{k}' was modified", oi)
-                if xi != acted:
+                if xi != acted or kind == "deviation":
                     pub = public(x)
                     for k in pub:
                         if pub[k].tobytes() != before_pub[xi][k].tobytes():
-                            res.violation("pi_law", dict(sig0, what="cross_talk", op=kind), f"op {oi} {kind} on body {bi} changed '{k}' of body {xi}", oi)
+                            res.violation("pi_law", dict(sig0, what="cross_talk", op=kind), f"op {oi} {kind} on body {bi} changed '{k}' of body {xi}" + (" (a read-only query)" if xi == acted else ""), oi)
             if kind not in ("call", "consume") and forcing.tobytes() != forc_before.tobytes():
                 res.violation("forcing_field", dict(sig0, what="forcing_field_touched_by_non_spreading_op", op=kind), f"op {oi} {kind}: Eulerian forcing field changed by an op that does not spread", oi)
             if not b["inter"].eul_grid_velocity_field.flags.writeable:
